@@ -12,11 +12,11 @@
    The full statement is FALSE for the implementation (the `_refuted` theorems below exhibit the witnesses; each is a listed
    known finding, or the accepted sum/count convention).  The guarded statement is `_partial`: it covers every operator kind
    (table, extend with and without window, project, select_rows, select/drop/rename/map_columns, order_rows with and without
-   limit, natural_join inner/left/right/full, concat_rows) but, through the CVocab / CJoinKeyNames components of the guard,
-   not: the ordered window function `shift` (every other ordered window function raises on Polars 1.44.2), aggregates of a
-   constant `(1).sum()`, join key pairs with different names on the two sides, methods outside the vocabulary of Model/Sem.v;
-   those are covered by the correspondence and the oracle only.  CSortTies / CJoinKeyRepr / CGroupKeyRepr state that the
-   result is determined at all (no ties under a limit; equal keys are written the same way).  In a select_rows predicate
+   limit, natural_join inner/left/right/full with equally or differently named keys, concat_rows) but, through the CVocab /
+   CJoinKeyed components of the guard, not: the ordered window functions that Polars 1.44.2 still has (shift, first, last,
+   ffill, bfill), aggregates of a constant `(1).sum()`, joins WITHOUT keys (CROSS: the scratch key column), methods outside
+   the vocabulary of Model/Sem.v; those are covered by the correspondence and the oracle only.  CSortTies / CGroupKeyRepr
+   state that the result is determined at all (no ties under a limit; equal group keys are written the same way).  In a select_rows predicate
    a comparison other than != may see nulls under and / or (filter_nulls_ok): null and False both drop the row. *)
 From Coq Require Import List Bool Arith ZArith QArith String Permutation.
 Import ListNotations.
@@ -49,6 +49,9 @@ Ltac witness row :=
   intros P; apply Permutation_in with (x := row) in P; [vm_compute in P; intuition discriminate|vm_compute; auto].
 
 Definition one_null : env := [("d", mktable ["a"; "b"] [[VNull; Q2 5 1]])].
+Definition ex_env_keys : env :=
+  [("d", mktable ["k"; "a"; "s"] [[Q2 1 1; Q2 3 2; VStr "x"]; [Q2 2 1; VNull; VStr "y"]; [VNull; Q2 4 1; VNull]]);
+   ("g", mktable ["j"; "k"; "z"] [[Q2 2 1; Q2 7 1; Q2 10 1]; [Q2 5 1; VNull; Q2 30 1]; [VNull; Q2 1 1; Q2 40 1]])].
 
 (* a comparison with a null operand is null on Polars and False on Pandas (stored in a column) *)
 Theorem C03_comparison_with_null_refuted :
@@ -71,12 +74,22 @@ Example C03_maximum_with_null_agrees :
   sem_gen fl_pandas p one_null = Some (mktable ["a"; "b"; "x"; "y"] [[VNull; Q2 5 1; VNull; VNull]]).
 Proof. cbv zeta. split; [vm_compute; reflexivity|split; vm_compute; reflexivity]. Qed.
 
-(* pandas.merge matches a null key with a null key; the Polars join never does *)
-Theorem C03_null_join_keys_refuted :
-  differs (OJoin (OTable "d" ["a"; "b"]) (OTable "f" ["a"; "z"]) ["a"] ["a"] JLeft)
-          (one_null ++ [("f", mktable ["a"; "z"] [[VNull; Q2 7 1]])]) [CNullJoinKey].
-Proof. witness [VNull; Q2 5 1; VNull]. Qed.
-Print Assumptions C03_null_join_keys_refuted.
+(* regression example for repair af27aca (Pandas natural_join no longer pairs null keys; found by C16 and this check): the
+   former witness of C03_null_join_keys_refuted is inside the guard and the two sides agree (no match for the null key) *)
+Example C03_null_join_keys_agree :
+  let p := OJoin (OTable "d" ["a"; "b"]) (OTable "f" ["a"; "z"]) ["a"] ["a"] JLeft in
+  let e := one_null ++ [("f", mktable ["a"; "z"] [[VNull; Q2 7 1]])] in
+  agree_guardb p e = true /\
+  plexec p e = Ok (mktable ["a"; "b"; "z"] [[VNull; Q2 5 1; VNull]]) /\
+  sem_gen fl_pandas p e = Some (mktable ["a"; "b"; "z"] [[VNull; Q2 5 1; VNull]]).
+Proof. cbv zeta. split; [vm_compute; reflexivity|split; vm_compute; reflexivity]. Qed.
+
+(* differently named key pairs (and a key name that is a non-key column of the other side) are inside the guard since ad5b72b *)
+Example C03_guard_example_differently_named_keys :
+  let p := OJoin (OTable "d" ["k"; "a"; "s"]) (OTable "g" ["j"; "k"; "z"]) ["k"] ["j"] JFull in
+  let e := ex_env_keys in
+  agree_guardb p e = true /\ option_map (fun t => List.length (rows t)) (match plexec p e with Ok t => Some t | _ => None end) = Some 5%nat.
+Proof. cbv zeta. split; vm_compute; reflexivity. Qed.
 
 (* sort puts nulls first on Polars and last on Pandas: a limit keeps different rows *)
 Theorem C03_sort_null_placement_refuted :
